@@ -1444,7 +1444,7 @@ theorem G_frame (s : App) (c : CSet) (g : G s c) (I : List (Nat × SignInfo)) (B
     G { s with infos := I, bitmap := B, height := h, time := t } c :=
   { toM := M_frame s c g.toM I B h t hI, allCur := g.allCur, totalOk := g.totalOk }
 
-theorem beforeEnd_eq (env : Env) (s : App) (b : Block) :
+theorem beforeEnd_eq (env : Env) (s : App) (b : Block) (hg : b.gov = []) :
     beforeEnd env s b = (match beginState env s b with | .error h => .error h | .ok s2 => .ok (runTxs env b.txs s2 [] [])) := by
   unfold beforeEnd beginState
   dsimp only
@@ -1456,13 +1456,16 @@ theorem beforeEnd_eq (env : Env) (s : App) (b : Block) :
     | error h => rfl
     | ok s2 =>
       simp only
-      cases poaBegin env.lim s2 <;> rfl
+      cases poaBegin env.lim s2 with
+      | error h => rfl
+      | ok s3 => simp only [hg, runGov]
 
 /-- a block of a power-adjustment history: x/slashing punishes nobody, no evidence, quiet transactions, and at the
     EndBlocker the index fits under `MaxValidators` (no D7) and the powers stay within CometBFT's maximum -/
 structure QuietBlock (s : App) (c : CSet) (b : Block) : Prop where
   votes : VotesOk { s with height := s.height + 1, time := s.time + b.dt } b.votes
   noEvid : b.evid = []
+  noGov : b.gov = []
   txs : ∀ s2, beginState genEnv s b = .ok s2 → QuietTxs b.txs s2 []
   fits : ∀ s2, beginState genEnv s b = .ok s2 → Fits (runTxs genEnv b.txs s2 [] []).2 c
 
@@ -1488,7 +1491,7 @@ theorem block_G (s : App) (c : CSet) (b : Block) (g : G s c) (q : QuietBlock s c
   obtain ⟨ups, c', L, T, he, hc, hag, g4⟩ := endBlock_G _ c m3 f3
   refine ⟨⟨(runTxs genEnv b.txs s2 [] []).1, ups⟩, _, c', ?_, hc, hag, g4⟩
   unfold block
-  rw [beforeEnd_eq, hbegin]
+  rw [beforeEnd_eq _ _ _ q.noGov, hbegin]
   simp only [he]
 
 /-- the blocks of a power-adjustment history, judged along the run -/
@@ -1861,8 +1864,8 @@ theorem quietTxs_of_B : ∀ (txs : List Tx) (s : App) (incs : List (Signer × Na
 theorem quietBlock_of_B (s : App) (c : CSet) (b : Block) (h : quietBlockB s c b = true) : QuietBlock s c b := by
   unfold quietBlockB at h
   simp only [Bool.and_eq_true] at h
-  obtain ⟨⟨hv, he⟩, hm⟩ := h
-  refine ⟨?_, by simpa using he, ?_, ?_⟩
+  obtain ⟨⟨⟨hv, he⟩, hgv⟩, hm⟩ := h
+  refine ⟨?_, by simpa using he, by simpa using hgv, ?_, ?_⟩
   · cases hsl : slashingBegin b.votes { s with height := s.height + 1, time := s.time + b.dt } with
     | error e => rw [hsl] at hv; cases hv
     | ok s1 =>
